@@ -2,7 +2,7 @@
 DISPENSO_SRC ?= /repo
 B ?= build
 CXX := clang++
-MODES := asan tsan plain
+MODES := asan tsan plain plain4
 
 TUNE := -DDISPENSO_TUNE_FIXED_SPIN_ITERS=2 -DDISPENSO_TUNE_SPIN_CHECK_INTERVAL=1 -DDISPENSO_TUNE_QUEUE_CHECK_INTERVAL=1
 COMMON := -std=c++14 -g -DNDEBUG -DDISPENSO_VERIF_MC=1 -fno-omit-frame-pointer -Wno-unused-command-line-argument \
@@ -12,6 +12,10 @@ SHIM := -include engine/mc_shim.h
 FLAGS_asan := -O1 -fsanitize=address,undefined -fno-sanitize-recover=undefined -fno-sanitize=vptr,function -DMC_MODE='"asan"'
 FLAGS_tsan := -O1 -fsanitize=thread -DMC_MODE='"tsan"'
 FLAGS_plain := -O2 -DMC_MODE='"plain"'
+# plain4: as plain, but a worker makes two full passes over its work sources before it parks instead of one. With
+# one pass a worker that loses a single fail-fast MpmcRingBuffer::try_pop race parks at once, which the shipped
+# configuration (200-400 passes) never does; C07, which forbids the backstop, is decided on this variant.
+FLAGS_plain4 := $(FLAGS_plain) -UDISPENSO_TUNE_FIXED_SPIN_ITERS -DDISPENSO_TUNE_FIXED_SPIN_ITERS=4
 
 WRAP := -Wl,--wrap=__cxa_guard_acquire -Wl,--wrap=__cxa_guard_release -Wl,--wrap=__cxa_guard_abort
 LIBS := -rdynamic -lpthread -ldl
